@@ -11,28 +11,40 @@ CONSTANTS Circuits,      \* circuit tokens; each has a public-input count
           PiCount,       \* [Circuits -> Nat]
           Canonical,     \* the canonical child
           ExpectedPis,   \* the layout's public-input count
-          KeyMode        \* "baked" (the code) | "virtual" (spec mutant)
+          KeyMode,       \* "baked" (the code) | "virtual" (spec mutant)
+          MaxSlots,      \* batch sizes 1 .. MaxSlots
+          LoopMode       \* "all" (the code: every slot is verified) | "skiplast" (spec mutant: the loop stops one slot early)
 
-VARIABLES builtFor, ctorResult, proof, keyUsed, accepted, stage
-vars == <<builtFor, ctorResult, proof, keyUsed, accepted, stage>>
+\* A batch has n slots; the examined proof sits in slot `slot`, every other slot holds a valid proof of the circuit the
+\* outer was built for.  add_recursive_verifiers is a LOOP over the slots (one action per iteration, `i`): a slot the
+\* loop does not reach is not bound to the child circuit at all.
+VARIABLES builtFor, ctorResult, proof, keyUsed, accepted, stage, n, slot, i
+vars == <<builtFor, ctorResult, proof, keyUsed, accepted, stage, n, slot, i>>
 Proofs == [by : Circuits, valid : BOOLEAN]
 
 Init == /\ builtFor \in Circuits /\ ctorResult = "none" /\ proof \in Proofs /\ keyUsed = Canonical
-        /\ accepted = FALSE /\ stage = "ctor"
+        /\ accepted = FALSE /\ stage = "ctor" /\ n \in 1 .. MaxSlots /\ slot \in 1 .. MaxSlots /\ slot <= n /\ i = 1
 \* PrivateBatchCircuit::new / PublicBatchCircuit::new: runtime shape check before anything is built
 Ctor == /\ stage = "ctor"
         /\ ctorResult' = IF PiCount[builtFor] = ExpectedPis THEN "ok" ELSE "err"
         /\ stage' = IF PiCount[builtFor] = ExpectedPis THEN "key" ELSE "end"
-        /\ UNCHANGED <<builtFor, proof, keyUsed, accepted>>
+        /\ UNCHANGED <<builtFor, proof, keyUsed, accepted, n, slot, i>>
 \* the key the recursive verifier gadget checks against
 Key == /\ stage = "key"
        /\ IF KeyMode = "baked" THEN keyUsed' = builtFor
           ELSE \E k \in Circuits : keyUsed' = k          \* a virtual key is the prover's choice
-       /\ stage' = "verify" /\ UNCHANGED <<builtFor, ctorResult, proof, accepted>>
-\* witness fill (shape) + in-circuit verification
+       /\ stage' = "verify" /\ accepted' = TRUE /\ UNCHANGED <<builtFor, ctorResult, proof, n, slot, i>>
+\* witness fill (shape) + in-circuit verification of slot i; the other slots hold valid proofs of builtFor
+SlotOk(j) == IF j = slot THEN proof.valid /\ proof.by = keyUsed /\ PiCount[proof.by] = PiCount[builtFor]
+             ELSE builtFor = keyUsed
+Last == IF LoopMode = "all" THEN n ELSE n - 1
+\* the witness filler checks the shape of EVERY slot's proof, whether or not the loop verifies it
+ShapeOk == PiCount[proof.by] = PiCount[builtFor]
 Verify == /\ stage = "verify"
-          /\ accepted' = (proof.valid /\ proof.by = keyUsed /\ PiCount[proof.by] = PiCount[builtFor])
-          /\ stage' = "end" /\ UNCHANGED <<builtFor, ctorResult, proof, keyUsed>>
+          /\ IF i <= Last
+               THEN accepted' = (accepted /\ SlotOk(i)) /\ i' = i + 1 /\ stage' = stage
+               ELSE accepted' = (accepted /\ ShapeOk) /\ i' = i /\ stage' = "end"
+          /\ UNCHANGED <<builtFor, ctorResult, proof, keyUsed, n, slot>>
 Done == stage = "end" /\ UNCHANGED vars
 Next == Ctor \/ Key \/ Verify \/ Done
 Spec == Init /\ [][Next]_vars
